@@ -26,3 +26,25 @@
 (assert (forall ((SP (Array Int Int)) (SP2 (Array Int Int)) (HP (Array Int (Array Int Fp))) (EL (Array Int Int)) (eo Int) (n Int))
   (! (=> (forall ((j Int)) (=> (and (<= 0 j) (< j (* 64 n))) (= (select SP j) (select SP2 j)))) (= (bunc SP HP EL eo n) (bunc SP2 HP EL eo n)))
      :pattern ((bunc SP HP EL eo n) (bunc SP2 HP EL eo n)))))
+; pobj/poff: the k-th pointer (object, offset) of a pointer slice stored in row A from offset o. Declared with defining
+; axioms rather than define-fun so that they are usable as e-matching triggers (arithmetic inside select is not).
+(declare-fun pobj ((Array Int Int) Int Int) Int)
+(declare-fun poff ((Array Int Int) Int Int) Int)
+(assert (forall ((A (Array Int Int)) (o Int) (k Int)) (! (= (pobj A o k) (select A (+ o (* 2 k)))) :pattern ((pobj A o k)))))
+(assert (forall ((A (Array Int Int)) (o Int) (k Int)) (! (= (poff A o k) (select A (+ (+ o (* 2 k)) 1))) :pattern ((poff A o k)))))
+; bmap(HR,RES,ro,HP,EL,eo,n): for every k < n the scalar stored at the k-th result pointer (RES: row of the result pointer
+; slice, HR the scalar heap) is the map-to-scalar-field value of element k: the integer of x/y (x = X, y = Y projective
+; coordinates of element k in the point heap HP) reduced modulo r
+(declare-fun bmap ((Array Int (Array Int Fr)) (Array Int Int) Int (Array Int (Array Int Fp)) (Array Int Int) Int Int) Bool)
+(assert (forall ((HR (Array Int (Array Int Fr))) (RES (Array Int Int)) (ro Int) (HP (Array Int (Array Int Fp))) (EL (Array Int Int)) (eo Int)) (! (bmap HR RES ro HP EL eo 0) :pattern ((bmap HR RES ro HP EL eo 0)))))
+(assert (forall ((HR (Array Int (Array Int Fr))) (RES (Array Int Int)) (ro Int) (HP (Array Int (Array Int Fp))) (EL (Array Int Int)) (eo Int) (n Int)) (! (=> (>= n 0) (= (bmap HR RES ro HP EL eo (+ n 1))
+    (and (bmap HR RES ro HP EL eo n)
+         (= (select (select HR (pobj RES ro n)) (poff RES ro n))
+            (fr_of_int (mod (fp_to_int (fp_mul (select (select HP (pobj EL eo n)) (+ (poff EL eo n) 0))
+                                                (fp_inv (select (select HP (pobj EL eo n)) (+ (poff EL eo n) 1))))) 13108968793781547619861935127046491459309155893440570251786403306729687672801))))))
+  :pattern ((bmap HR RES ro HP EL eo (+ n 1))))))
+; bmap looks only at the scalar cells the first n result pointers refer to (by induction on n: spec/lemmas/C11_bmap_frame.smt2)
+(assert (forall ((HR (Array Int (Array Int Fr))) (HR2 (Array Int (Array Int Fr))) (RES (Array Int Int)) (ro Int) (HP (Array Int (Array Int Fp))) (EL (Array Int Int)) (eo Int) (n Int))
+  (! (=> (forall ((k Int)) (=> (and (<= 0 k) (< k n)) (= (select (select HR (pobj RES ro k)) (poff RES ro k)) (select (select HR2 (pobj RES ro k)) (poff RES ro k)))))
+         (= (bmap HR RES ro HP EL eo n) (bmap HR2 RES ro HP EL eo n)))
+     :pattern ((bmap HR RES ro HP EL eo n) (bmap HR2 RES ro HP EL eo n)))))
